@@ -178,7 +178,10 @@ def main():
         if key in seen_reason and len(seen_reason) > 0:
             continue
         seen_reason.add(key)
-        small, dd = core.shrink(allh[hi])
+        try:
+            small, dd = core.shrink(allh[hi])
+        except Exception:
+            small, dd = allh[hi], None          # never let the shrinker hide a finding
         dd = dd or d
         path = write_replay(pid, {
             'property': pid, 'kind': 'failing-input', 'seed': seed, 'tier': tier, 'repo_head': repo_head(),
